@@ -121,7 +121,10 @@ _mag = st.one_of(st.floats(2.0 ** -10, 100.0, width=32), st.floats(-100.0, -(2.0
 _special = st.sampled_from([0.0, 0.1, -0.1, 0.3, 0.7, 1e-3, 1e3, 1000.01, -2.7, 5.0, 1.0])
 _offset = st.floats(-1e-2, 1e-2).map(lambda d: 1e3 + d)
 _value = st.one_of(_lattice, _mag, _special, _offset)
-_sizes = st.one_of(st.integers(1, 50), st.integers(1, 8), st.sampled_from([1, 1, 2, 3, 7, 32, 50]))
+# (one batch in sixteen is large: multi-start rewards [1024, 100] arrive as one call of > 2**16 values - block-wise or
+#  chunked accumulation inside one update only shows there)
+_sizes = st.one_of(*([st.integers(1, 50), st.integers(1, 8), st.sampled_from([1, 1, 2, 3, 7, 32, 50])] * 5
+                     + [st.sampled_from([4097, 65537, 70000, 102400])]))
 _seed = st.integers(0, 2 ** 20)
 
 
@@ -379,6 +382,9 @@ class ScalerH:
         if bkey in HALF and not self.half_history:
             bkey = self.dkey  # (half precision batches only in histories that live on the small lattice)
         if self.half_history:
+            if int(b.get("n", 0)) > 50:
+                # (float16 accumulators hold at most 65504: large batches stay with float32 / float64 histories)
+                b = {**b, "n": 50}
             x = half_values(build_tensor(b, torch.float64, self.c0)).to(DT[bkey])
         else:
             x = build_tensor(b, DT[bkey], self.c0)
